@@ -1595,3 +1595,14 @@ def _to_arg3(I, a):
 _to_arg = _to_arg3
 C.contract(STD, 'pretty_uuid', params={'value': 'Val', 'ctx': 'Ctx'}, returns='Doc',
            ensures=[('chosen-call:the-canonical-text', 'result == call_alt(ctx, cls_of(value), [AStr(str_text(value))])')], serves=_SERV7)
+
+
+# ==== pretty_str (outer function): the depth placeholder of a string (C11); the width-dependent part is pretty_str.evaluator (strings) ====
+C.extern[PP]['contextual'] = FuncVal('hook', 'contextual', lambda I, a, k, n: I.fresh('Doc', 'contextual'))
+_ps = C.contract(
+    PP, 'pretty_str', params={'s': 'Val', 'ctx': 'Ctx', 'split_pattern': 'OptStr'}, returns='Doc',
+    ensures=[('depth-placeholder-of-its-own-type', 'implies(ctx.depth_left == 0, result == call_alt(ctx, cls_of(s), [AEllipsis()]))')],
+    serves=['C11', 'C08'],
+    note='below the cut a str / bytes (or subclass) instance is the call placeholder of its own class; otherwise the result is the '
+         'contextual document whose evaluator is verified in family strings')
+_ps.defaults = {'split_pattern': None}
